@@ -69,7 +69,7 @@ continuation prefix stripped (empty at top level, `>` in a quote) and a newline.
 theorem ITEM_LOOSE (cfg : RCfg) (st : RState) (bs : List Block) (h : st.listTight = false)
     (hs : st.suppress = false) :
     (renderBlock cfg st (.item bs)).1 =
-      strip st.snd ++ '\n' :: (renderBlocks cfg { st with suppress := false } bs).1 := by
+      rstrip st.snd ++ '\n' :: (renderBlocks cfg { st with suppress := false } bs).1 := by
   simp [renderBlock, h, hs]
 
 /-- … and right after a heading / blank line / definition (which already separated), none. -/
